@@ -97,10 +97,10 @@ def jsonable(x):
         return repr(x)
 
 
-def write_replay(prop, viol, engine):
+def write_replay(prop, viol, engine, tier="quick"):
     d = os.path.join(REPLAYS, prop)
     os.makedirs(d, exist_ok=True)
-    body = {"property": prop, "engine": engine, "sig": viol["sig"],
+    body = {"property": prop, "engine": engine, "tier": tier, "sig": viol["sig"],
             "case": jsonable(viol.get("case")), "expected": jsonable(viol.get("expected")),
             "observed": jsonable(viol.get("observed")), "build": git_rev()}
     h = hashlib.sha1(json.dumps([body["sig"], body["case"]], sort_keys=True, default=repr).encode()).hexdigest()[:16]
@@ -218,7 +218,7 @@ def run(prop, tier, replay=None, nproc=None, do_build=True):
                         print("MACHINERY: violation did not replay deterministically: sig=%r replay=%r"
                               % (sig, [x["sig"] for x in v2s]))
                         return EXIT_MACHINERY
-            path = write_replay(prop, v, getattr(mod, "ENGINE", "PEX"))
+            path = write_replay(prop, v, getattr(mod, "ENGINE", "PEX"), tier)
             new_viol_paths.append((sig, path, len(group)))
     finally:
         if rw is not None:
@@ -283,9 +283,9 @@ def do_replay(mod, prop, path, wkwargs):
     if getattr(mod, "NEEDS_WORKER", True):
         w = pool.Worker(**wkwargs)
         if hasattr(mod, "setup"):
-            mod.setup(w, "quick")
+            mod.setup(w, body.get("tier", "quick"))
     try:
-        v = recheck(w, body["case"], "quick")
+        v = recheck(w, body["case"], body.get("tier", "quick"))
     finally:
         if w is not None:
             w.close()
